@@ -499,6 +499,34 @@ func genC09(cw *caseWriter, seed uint64, tier string) {
 			}
 		}
 	}
+	// values STORED with Row.Set / SetAtIndex into a column declared with an integer raw type: inside the range the
+	// column holds the integer, outside it holds null — never the unconverted source, never another integer
+	setVals := []interface{}{7, 127, 128, -128, -129, 255, 256, 300, 32768, 65535, 65536, int64(1) << 31, int64(1) << 32, int64(math.MaxInt64), uint64(math.MaxUint64), uint64(1) << 63, -1,
+		"300", "9223372036854775808", json.Number("128"), json.Number("1e2"), 1.5, float64(1 << 40), float32(1 << 31), math.NaN(), true, nil, []byte{1, 2}}
+	for _, f := range []string{"numeric", "string", "auto", "timestamp"} {
+		for _, ty := range intTys {
+			for k, v := range setVals {
+				emitSetCol(cw, "C09", f, ty, v, k%2 == 0)
+			}
+		}
+	}
+	// the typed integer GETTERS over columns holding integers around every width's bounds, whatever carries them:
+	// the value when it fits the getter's type, the zero value otherwise — never a wrapped one
+	getInts := map[string]func(jsonline.Row, string) interface{}{
+		"GetInt": func(r jsonline.Row, k string) interface{} { return r.GetInt(k) }, "GetInt64": func(r jsonline.Row, k string) interface{} { return r.GetInt64(k) },
+		"GetInt32": func(r jsonline.Row, k string) interface{} { return r.GetInt32(k) }, "GetInt16": func(r jsonline.Row, k string) interface{} { return r.GetInt16(k) },
+		"GetInt8": func(r jsonline.Row, k string) interface{} { return r.GetInt8(k) }, "GetUint": func(r jsonline.Row, k string) interface{} { return r.GetUint(k) },
+		"GetUint64": func(r jsonline.Row, k string) interface{} { return r.GetUint64(k) }, "GetUint32": func(r jsonline.Row, k string) interface{} { return r.GetUint32(k) },
+		"GetUint16": func(r jsonline.Row, k string) interface{} { return r.GetUint16(k) }, "GetUint8": func(r jsonline.Row, k string) interface{} { return r.GetUint8(k) }}
+	for _, g := range []string{"GetInt", "GetInt64", "GetInt32", "GetInt16", "GetInt8", "GetUint", "GetUint64", "GetUint32", "GetUint16", "GetUint8"} {
+		for _, v := range []interface{}{127, 128, -128, -129, 255, 256, 300, 32767, 32768, 65535, 65536, 70000, int64(1) << 31, int64(1)<<32 + 5, int64(math.MinInt64), uint64(math.MaxUint64), -1,
+			"70000", "128", "-1", json.Number("300"), json.Number("4294967301"), float64(1 << 33), 3e9, float32(300), 1.5} {
+			row := jsonline.NewRow()
+			row.Set("v", v)
+			gg := getInts[g]
+			emitGetterFor(cw, "C09", row, g, "v", func(rr jsonline.Row) interface{} { return gg(rr, "v") })
+		}
+	}
 	// uniformly random
 	n := 3000
 	if tier == "thorough" {
